@@ -157,6 +157,44 @@ fn pgn_roundtrip(g: &Game) -> (String, String) {
     (hex(&pgn), r)
 }
 
+// the raw string literals of src/games.rs (the patterns Game::from_pgn compiles), recognised by content like tools/pgn_patterns.py
+fn source_patterns() -> Option<[String; 4]> {
+    let src = std::fs::read_to_string("/repo/src/games.rs").ok()?;
+    let b = src.as_bytes();
+    let mut lits: Vec<String> = vec![];
+    let mut i = 0;
+    while i < b.len() {
+        let ident_before = i > 0 && (b[i - 1].is_ascii_alphanumeric() || b[i - 1] == b'_');
+        if b[i] == b'r' && !ident_before {
+            let mut j = i + 1; let mut h = 0;
+            while j < b.len() && b[j] == b'#' { h += 1; j += 1 }
+            if j < b.len() && b[j] == b'"' {
+                let start = j + 1;
+                let close: Vec<u8> = std::iter::once(b'"').chain(std::iter::repeat(b'#').take(h)).collect();
+                if let Some(k) = (start..=b.len().saturating_sub(close.len())).find(|&k| &b[k..k + close.len()] == &close[..]) {
+                    lits.push(String::from_utf8_lossy(&b[start..k]).to_string());
+                    i = k + close.len(); continue
+                }
+            }
+        }
+        i += 1;
+    }
+    let pick = |f: &dyn Fn(&str) -> bool| -> Option<String> {
+        let mut c: Vec<&String> = lits.iter().filter(|l| f(l)).collect(); c.dedup();
+        if c.len() == 1 { Some(c[0].clone()) } else { None } };
+    Some([pick(&|l| l.contains("O-O"))?, pick(&|l| l.contains("1/2-1/2") && !l.contains("O-O"))?,
+          pick(&|l| l.contains("\\r?\\n") || (l.contains("\\n") && l.contains("{")))?, pick(&|l| l.contains("\\[") && l.contains("\\w"))?])
+}
+
+// what the regex crate makes of a text under the four patterns of the source (tokens, first result, second piece of the split, tag pairs)
+fn regex_obs(pats: &[regex::Regex; 4], s: &str) -> String {
+    let mv: Vec<String> = pats[0].find_iter(s).map(|m| hex(m.as_str())).collect();
+    let res = pats[1].find(s).map(|m| m.as_str().to_string()).unwrap_or_else(|| "-".into());
+    let sp = pats[2].split(s).nth(1).map(|x| format!("ok:{}", hex(x))).unwrap_or_else(|| "none".into());
+    let tg: Vec<String> = pats[3].captures_iter(s).map(|c| format!("{}={}", hex(&c[1]), hex(&c[2]))).collect();
+    format!("mv={}|res={}|sp={}|tg={}", mv.join(","), res, sp, tg.join(","))
+}
+
 // what Game::from_pgn makes of a text: outcome, and for an accepted text the imported moves, status, result tag and position
 fn pgn_import_obs(s: &str) -> (&'static str, String) {
     match quiet(|| Game::from_pgn(s)) {
@@ -291,6 +329,12 @@ const GAME_ROOTS: &[&str] = &[
     "r3k3/8/8/8/8/8/8/3K4 b q - 0 1",
     "4rkr1/4p1p1/8/8/8/8/8/4K2R w K - 0 1",      // castling gives mate
     "3k4/8/8/8/8/8/8/R3K3 w Q - 0 1",
+    // a double pawn step after which the only legal reply is the en-passant capture (check / no other move): the recorded
+    // mate flag, the terminal status and the continuation all hinge on that capture
+    "5B2/8/5K2/7k/7p/7P/6P1/8 w - - 0 1",
+    "k7/2Q5/8/8/3p4/3B4/4P3/4K3 w - - 0 1",
+    "8/6p1/7p/7P/7K/5k2/8/5b2 b - - 0 1",
+    "4k3/4p3/3b4/3P4/8/8/2q5/K7 b - - 0 1",
 ];
 
 /// scripted openings from the standard start that create unusual material early (three knights, two or three queens
@@ -457,7 +501,8 @@ fn suite_game(w: &mut dyn Write, tier: &str, seed: u64, shard: usize, nshards: u
         let start = roots[0].clone();
         for i in 0..n {
             let len = if i % 10 == 0 { cx.rng.below(4) } else { 2 + cx.rng.below(160) };
-            if i % 8 == 3 { let cycles = 2 + cx.rng.below(2); dance_game(&mut cx, &start, cycles, 0, 6); continue }
+            // repetition games; every other one with draw offers made and declined on the way (they must not count as occurrences)
+            if i % 8 == 3 { let cycles = 2 + cx.rng.below(2); dance_game(&mut cx, &start, cycles, if (i / 8) % 2 == 0 { 0 } else { 20 }, 6); continue }
             if i % 4 == 1 { let pf = PREFIXES[cx.rng.below(PREFIXES.len())]; let l = 10 + cx.rng.below(60); random_game_from(&mut cx, &start, l, 2, Some(pf)); continue }
             random_game(&mut cx, &start, len, if i % 3 == 0 { 0 } else { 4 });
         }
@@ -570,7 +615,7 @@ fn suite_str(w: &mut dyn Write, tier: &str, seed: u64, shard: usize, nshards: us
     }
     // PGN: hand-assembled texts that exercise the tokeniser (tag pairs, blank-line split, move and result tokens)
     {
-        const HEADERS: [&str; 14] = ["", "[Event \"?\"]\n", "[Result \"1-0\"]\n", "[Result \"0-1\"]\n[Result \"?\"]\n", "[ Result \"1-0\"]\n",
+        const HEADERS: [&str; 17] = ["[Result\x0b\"1-0\"\x0c]\n", "[Result\x1c\"1-0\"]\n", "[Result \"0-1\"]\r\n",  "", "[Event \"?\"]\n", "[Result \"1-0\"]\n", "[Result \"0-1\"]\n[Result \"?\"]\n", "[ Result \"1-0\"]\n",
             "[Result   \"1/2-1/2\"  ]\n", "[Result \"a b,c:d/e.f?-\"]\n", "[Result\"1-0\"]\n", "[Result \"1-0\" x]\n", "[Result \"\"]\n",
             "[Result\t\"0-1\"\n]\n", "[[Result \"1-0\"]]\n", "[Re_sult9 \"1-0\"][Result \"*\"]\n", "[Result \"0-1\"\n"];
         const SEPS: [&str; 10] = ["\n", "\n\n", "\r\n\r\n", "\n\r\n", "\r\n\n\n", "\n\n\n\n", "\r\r\n\n", "\n \n", "", "\n\r\r\n\n"];
@@ -588,6 +633,23 @@ fn suite_str(w: &mut dyn Write, tier: &str, seed: u64, shard: usize, nshards: us
             n += 1;
             writeln!(w, "N|id=s{}_{}|in={}|pgn={}|slow=no{}", shard, n, hex(&s), r, out).unwrap();
         } } }
+    }
+    // the regex crate on the source's own patterns over token soups: is the model's matcher the crate's semantics?
+    {
+        const FRAGS: [&str; 60] = ["N", "B", "R", "Q", "K", "n", "k", "q", "a", "b", "c", "g", "h", "1", "2", "7", "8", "9", "0", "x", "xx", "O-O", "O-O-O", "-O", "O", "-", "=", "=Q", "=N", "=K", "=q",
+            "+", "#", "+#", " ", " ", "\n", "\r\n", "\n\n", "\r", ".", "1.", "12.", "1-0", "0-1", "1/2-1/2", "1/2", "/", "[", "]", "\"", "Result", "[Result \"1-0\"]", "\t", "é", "e4", "Nf3", "exd5", "e8=Q+", "_"];
+        match source_patterns().and_then(|p| { let r: Vec<regex::Regex> = p.iter().filter_map(|x| regex::Regex::new(x).ok()).collect(); if r.len() == 4 { Some([r[0].clone(), r[1].clone(), r[2].clone(), r[3].clone()]) } else { None } }) {
+            None => { writeln!(w, "R|id=s{}_patterns|err=patterns-not-found", shard).unwrap(); }
+            Some(pats) => {
+                let nr = tier_n(tier, 4000, 400000) / nshards;
+                for _ in 0..nr {
+                    let k = rng.below(14);
+                    let s: String = (0..k).map(|_| FRAGS[rng.below(FRAGS.len())]).collect();
+                    n += 1;
+                    writeln!(w, "R|id=s{}_{}|in={}|{}", shard, n, hex(&s), regex_obs(&pats, &s)).unwrap();
+                }
+            }
+        }
     }
     // PGN: exported games, mutated
     let np = tier_n(tier, 300, 10000) / nshards;
